@@ -35,7 +35,8 @@ CLAIMS["C03"] = {
             "== prev_log_number (guard equivalence in both directions), in ascending order (comparator sign analysis), "
             "marks each replayed number, folds max sequence; logs are retired in an edit only after the flush that emptied "
             "them succeeded; the memtable switch is one critical section; reused logs/MANIFESTs are appended at their "
-            "measured length. It does not decide equality of the recovered state with the fold of batches.",
+            "measured length; CURRENT is touched only as the target of the atomic rename (never unlinked or rewritten in place). "
+            "It does not decide equality of the recovered state with the fold of batches.",
     "design_ref": "DESIGN.md 5/C03",
     "technique": "static analysis: path-sensitive call-order automata, guard equivalence over branch edges, comparator ordering analysis on the clang CFG",
     "note": "Necessary conditions only. " + _TB,
@@ -62,7 +63,8 @@ CLAIMS["C05"] = {
 CLAIMS["C15"] = {
     "text": "Decides the framing clauses of C15: log-format constants (compile-time witnesses), header byte offsets and CRC "
             "coverage of writer and reader against the standard layout, mask/unmask inverse rotations, block switch at "
-            "fewer than 7 bytes, fragment typing from (begin,end), torn tail = EOF without report, reassembly returns. "
+            "fewer than 7 bytes, fragment typing from (begin,end), torn tail = EOF without report, reassembly returns, a CRC "
+            "mismatch discards the whole buffered block (the length field is untrusted). "
             "Byte-for-byte equality with a reference encoder for all inputs and resynchronisation are not decided.",
     "design_ref": "DESIGN.md 5/C15",
     "technique": "static analysis: _Static_assert witnesses, writer/reader sibling agreement on expression shape, guard dominance on the clang CFG",
@@ -107,7 +109,8 @@ CLAIMS["C08"] = {
             "captured objects; the writer reads and stamps its sequence range in the section in which it is queue head and "
             "publishes it under the mutex after the insert and before any follower is released, the queue is shifted or the "
             "next head is woken; memtable switch and version install are single sections after the relock; the lock-free "
-            "head-writer accesses are confined. Linearizability of concrete histories is not decided.",
+            "head-writer accesses are confined; a background compaction drops an entry only under the two snapshot-bounded rules "
+            "(an acknowledged delete cannot reappear at the head). Linearizability of concrete histories is not decided.",
     "design_ref": "DESIGN.md 5/C08",
     "technique": "static analysis: critical-section identity automata over all feasible CFG paths + interprocedural lock-state contexts",
     "note": "Necessary conditions only. " + _TB,
@@ -163,7 +166,7 @@ CLAIMS["C01"] = {
             "keys with equal user key ordered by descending tag (comparator CFG evaluated under the three operand "
             "orderings); an entry is dropped by a compaction only under rule (A) newer entry at/below the oldest snapshot or "
             "(B) tombstone at/below it at the base level, with the per-key sequence bookkeeping; inputs extended by boundary "
-            "files; memtable output level only without overlap; data block skipped only on a negative filter answer; "
+            "files; a manual compaction shortens its input list only above level 0; memtable output level only without overlap; data block skipped only on a negative filter answer; "
             "tombstones end the search in memtable and tables. Seek correctness, binary searches and cache-key uniqueness "
             "are not decided.",
     "design_ref": "DESIGN.md 5/C01",
@@ -175,7 +178,8 @@ CLAIMS["C06"] = {
             "oldest = head.next) or last_sequence when none; the two drop rules (shared with C01); the user iterator lets an "
             "entry influence its view only if sequence <= iterator sequence (exact match: a stricter filter is also flagged), "
             "seeks with its sequence, which is set once from the snapshot or the capture section; the snapshot list is "
-            "modified only by ldb_snapshot / ldb_release. Observed contents are not decided.",
+            "modified only by ldb_snapshot / ldb_release; every function handed read options (they carry the snapshot) forwards "
+            "that same object to its callees. Observed contents are not decided.",
     "design_ref": "DESIGN.md 5/C06",
     "technique": "static analysis: guard dominance (exact and by implication) and provenance rules on the clang CFG",
     "note": "Necessary conditions only. " + _TB,
